@@ -8,7 +8,6 @@ import (
 	"context"
 	"fmt"
 	"io"
-	"os"
 	"os/exec"
 	"strings"
 	"sync"
@@ -252,31 +251,13 @@ type Session struct {
 }
 
 func newSession(timeoutMs int) (*Session, error) {
-	cmd := exec.Command("z3-new", "-in")
-	in, err := cmd.StdinPipe()
-	if err != nil {
-		return nil, err
-	}
-	outp, err := cmd.StdoutPipe()
-	if err != nil {
-		return nil, err
-	}
-	cmd.Stderr = os.Stderr
-	if err := cmd.Start(); err != nil {
-		return nil, err
-	}
-	s := &Session{cmd: cmd, in: in, out: bufio.NewReaderSize(outp, 1<<20), timeout: timeoutMs}
+	s := &Session{timeout: timeoutMs, dead: true}
 	s.send0(fmt.Sprintf("(set-option :timeout %d)\n", timeoutMs))
 	return s, nil
 }
 
 func (s *Session) send0(txt string) {
 	s.log.WriteString(txt)
-	if !s.dead {
-		if _, err := io.WriteString(s.in, txt); err != nil {
-			s.dead = true
-		}
-	}
 }
 
 // Assert adds a permanent (level 0) command: declaration or assertion.
@@ -339,11 +320,20 @@ func (s *Session) readSexprOrLine() string {
 // Check checks satisfiability of (level-0 assertions ∧ extra) and optionally evaluates
 // getValues on sat.
 func (s *Session) Check(extra []string, getValues []string) SolveResult {
+	return s.CheckT(extra, getValues, 0)
+}
+
+// CheckT is Check with a one-off timeout (ms; 0 = the session default).
+func (s *Session) CheckT(extra []string, getValues []string, timeoutMs int) SolveResult {
 	t0 := time.Now()
 	if s.dead {
 		return SolveResult{Verdict: Unknown, Solver: "z3-5.1.0(dead)"}
 	}
 	var q strings.Builder
+	if timeoutMs > 0 {
+		q.WriteString(fmt.Sprintf("(set-option :timeout %d)\n", timeoutMs))
+		defer func() { io.WriteString(s.in, fmt.Sprintf("(set-option :timeout %d)\n", s.timeout)) }()
+	}
 	q.WriteString("(push 1)\n")
 	for _, e := range extra {
 		q.WriteString("(assert " + e + ")\n")
